@@ -14,6 +14,9 @@ import (
 const clockLo, clockHi = int64(1) << 60, int64(1) << 61
 
 func (p *Path) now() *smt.T {
+	if p.clockVirtual && p.clock != nil {
+		return p.clock
+	}
 	n, _ := p.freshName("clock")
 	t := p.regVar(smt.VarRange(n, clockLo, clockHi))
 	p.addPC(smt.InRange(t, clockLo, clockHi))
@@ -46,6 +49,14 @@ func registerTime(e *Engine) {
 			p.now()
 		}
 		prev := p.clock
+		if rec, ok := p.ghost["sleeps"]; ok && p.clockVirtual {
+			*(rec.(*[]Value)) = append(*(rec.(*[]Value)), d)
+		}
+		if p.clockVirtual {
+			// virtual time: waiting takes exactly as long as asked (never backwards)
+			p.clock = smt.Ite(smt.Lt(d, smt.I(0)), prev, smt.Add(prev, d))
+			return
+		}
 		t := p.now()
 		p.addPC(smt.Le(smt.Add(prev, d), t))
 		if rec, ok := p.ghost["sleeps"]; ok {
